@@ -364,6 +364,8 @@ func (m *Machine) run(fr *frame) {
 		}
 		fr.visits[fr.block.Index]++
 		if fr.visits[fr.block.Index] > m.Unwind {
+			// candidate non-termination: reported with a model and confirmed (or not) by the native replay's time limit
+			m.report("hang", fmt.Sprintf("loop in %s exceeds %d iterations (possible non-termination)", fr.fn, m.Unwind), true)
 			m.end("unwind", fmt.Sprintf("block %d of %s visited more than %d times", fr.block.Index, fr.fn, m.Unwind))
 		}
 	instrs:
